@@ -194,6 +194,8 @@ class FormEnv:
             d = dotted(e)
             if d in self.attr_forms:
                 return self.attr_forms[d]
+            if isinstance(e.value, ast.Name) and ('*.' + e.attr) in self.attr_forms:
+                return self.attr_forms['*.' + e.attr]        # `<any local>.attr`: the form belongs to the attribute, not to the local's name
         return frozenset()
 
     def _params(self) -> Set[str]:
